@@ -187,6 +187,7 @@ type ccase struct {
 	ShutdownMode   string   `json:"shutdownMode"`
 	ShutdownDelay  int      `json:"shutdownDelayMs"`
 	Script         []string `json:"script"`
+	StickyRun      string   `json:"stickyRun,omitempty"`
 	script         []outcome
 }
 
@@ -297,6 +298,27 @@ func gen(seed uint64, idx int) *ccase {
 		o := genOutcome(r, r.Intn(100) < pFail, caps)
 		c.script = append(c.script, o)
 		c.Script = append(c.Script, o.String())
+	}
+	// one case in four: the endpoint answers a run of requests with the same complete error response (an expired
+	// key, a gateway that is down for a while), long enough that every batch in flight sees it maxStreak times in
+	// a row - a route that gives a batch up after a few identical answers, or treats one class of status as final,
+	// shows here and nowhere in a mixed script
+	if r.Chance(1, 4) {
+		st := r.PickInt([]int{400, 401, 401, 403, 404, 413, 422, 429, 500, 502, 503})
+		n := maxStreak * c.Concurrency
+		if n > 48 {
+			n = 48
+		}
+		at := r.Intn(3)
+		for len(c.script) < at+n {
+			c.script = append(c.script, okJSON)
+			c.Script = append(c.Script, okJSON.String())
+		}
+		for i := at; i < at+n; i++ {
+			c.script[i] = outcome{K: kRespond, Status: st, Body: bErrPage, Frame: fLength}
+			c.Script[i] = c.script[i].String()
+		}
+		c.StickyRun = fmt.Sprintf("%dx%d@%d", n, st, at)
 	}
 	return c
 }
@@ -1631,6 +1653,9 @@ shutwait:
 	}
 	if exact {
 		st.add("cases_exact_drop_attribution", 1)
+	}
+	if c.StickyRun != "" {
+		st.add("cases_with_a_run_of_identical_error_answers", 1)
 	}
 	if retries > 0 && len(kinds) >= 2 {
 		var ks []string
